@@ -14,13 +14,39 @@ def strip_pc(src, dst):
             f.write(json.dumps(r, separators=(',', ':')) + '\n')
 
 
-def step_bind(ctx, spec, driver, progs, consts, pb=2, max_exec=150):
+def keep_in_ops(recs, keep):
+    """step records of a client thread are kept only inside an operation (between its call and ret records) and only if
+       keep(record) holds for the labelled record (fn / ctx from call-site symbolization); everything else passes"""
+    inop = {}
+    for r in recs:
+        if r['e'] == 'call':
+            inop[r['t']] = True
+        elif r['e'] == 'ret':
+            inop[r['t']] = False
+        if r.get('fn', '') == '' and 'ln' in r and r['e'] in ('ld', 'st', 'cas', 'xchg', 'faa', 'fas', 'for', 'fence') and r['t'] != 9:
+            pass
+        if r['e'] in ('ld', 'st', 'cas', 'xchg', 'faa', 'fas', 'for', 'fence', 'lock', 'unlock') and r['t'] != 9:
+            if not inop.get(r['t']) or not keep(r):
+                continue
+        yield r
+
+
+def step_bind(ctx, spec, driver, progs, consts, pb=2, max_exec=150, keep=None):
     """run the real code with step logging, validate every execution against <spec>_Step, collect the order table"""
     xs = explore(ctx, 'steps_%s' % spec, driver, progs, mode='dfs', pb=pb, max_exec=max_exec, steps=True)
     d = ctx.sub('sb_' + spec)
     stage_specs(d)
     tr = os.path.join(d, 'steps.ndjson')
-    strip_pc(xs['trace'], tr)
+    if keep:
+        lab = os.path.join(d, 'labelled.ndjson')
+        label_steps(os.path.join(BUILD, driver), xs['trace'], lab)
+        with open(tr, 'w') as f:
+            for r in keep_in_ops((json.loads(l) for l in open(lab)), keep):
+                for k in ('fn', 'ln', 'ctx'):
+                    r.pop(k, None)
+                f.write(json.dumps(r, separators=(',', ':')) + '\n')
+    else:
+        strip_pc(xs['trace'], tr)
     open(os.path.join(d, 'sb.cfg'), 'w').write(cfg_text(None, consts, constraints=['Progress'], postcondition='Report', init='SInit', next_='SNext'))
     t0 = time.time()
     rc, out = sh('cd %s && timeout 900 tlc -workers 1 -metadir %s/md -config sb.cfg %s_Step.tla' % (d, d, spec), tmo=930, env={'TRACE': tr, 'JAVA_TOOL_OPTIONS': '-Xmx6g'})
